@@ -285,8 +285,10 @@ def meta_dump(mc, paths):
         d = {}
         for name in m.keys():
             stored = m._objs[name] if hasattr(m, "_objs") else None
-            obj = m.get(name)
             ref = stored.schema if stored is not None else None
+            # versioned lookup (an unversioned one parses with the newest installed major version, which may not
+            # support the stored object: documented multi-version limitation)
+            obj = m.get(name, tuple(ref.version)) if ref is not None else m.get(name)
             d[name] = ([ref.name, list(ref.version)] if ref is not None else None, obj.json_dict() if obj is not None else None)
         if d:
             out[p] = d
